@@ -152,6 +152,37 @@ class World:
         self.typefacts = {}       # object key -> {type name: Bool}
         self.is_subtype = None    # set by the comparison (type hierarchy of the program)
         self.ev_types = {}        # event key -> result type declared on the reference side
+        self.types = None         # MIR type definitions (set to constrain unknown values to well-formed ones)
+        self._wf_done = set()
+        self.refeqs = {}          # object key -> [(other key, Bool)]: possible identities between unknown objects
+
+    def refeq(self, ka, kb):
+        """possible identity of two unknown objects.  samlang structs are immutable, so a struct is allocated after
+        everything it points to: an object is never identical to one reached from it through fields.  Identical
+        objects pass the same type tests and hold the same integers."""
+        if ka == kb:
+            return z3.BoolVal(True)
+        for x, y in ((ka, kb), (kb, ka)):
+            if y.startswith(x + "@") or y.startswith(x + ".f"):
+                return z3.BoolVal(False)
+        ka, kb = sorted([ka, kb])
+        name = "refeq!S:%s!S:%s" % (ka, kb)
+        if name in self.bools:
+            return self.bools[name]
+        b = self.fact(name)
+        self.refeqs.setdefault(ka, []).append((kb, b))
+        self.refeqs.setdefault(kb, []).append((ka, b))
+        for x, y in ((ka, kb), (kb, ka)):
+            for t in list(self.typefacts.get(x, {})):
+                fx = self.fact("isi31!%s" % x if t == "#i31" else "isptr!%s!%s" % (x, t))
+                fy = self.fact("isi31!%s" % y if t == "#i31" else "isptr!%s!%s" % (y, t))
+                self.axioms.append(z3.Implies(b, fx == fy))
+            for (k, view, idx), v in list(self.fields.items()):
+                if k == x and isinstance(v, Int):
+                    o = self.field(Sym(y, None), idx, "int", view)
+                    self.axioms.append(z3.Implies(b, v.t == o.t))
+        self.axioms.append(z3.Implies(b, z3.BitVec(ka + "#i31val", 32) == z3.BitVec(kb + "#i31val", 32)))
+        return b
 
     def field(self, sym, idx, ty, view=None):
         """field `idx` of an unknown object seen through static type `view` (views of unrelated types are
@@ -160,6 +191,10 @@ class World:
         if k not in self.fields:
             suffix = "" if view is None else "@" + view
             self.fields[k] = self.mk("%s%s.f%d" % (sym.key, suffix, idx), ty)
+            if ty == "int":
+                for other, b in self.refeqs.get(sym.key, ()):
+                    o = self.field(Sym(other, None), idx, "int", view)
+                    self.axioms.append(z3.Implies(b, self.fields[k].t == o.t))
         return self.fields[k]
 
     def mk(self, key, ty):
@@ -167,7 +202,35 @@ class World:
             return Int(z3.BitVec(key, 32))
         if ty == "i31":
             return I31(z3.BitVec(key + "#i31", 32))
-        return Sym(key, ty)
+        v = Sym(key, ty)
+        if self.types is not None and key not in self._wf_done:
+            self._wf_done.add(key)
+            self.well_formed(v)
+        return v
+
+    def well_formed(self, sym):
+        """an unknown value of a declared MIR type is one of the representations the type definition allows:
+        a data-free variant k is the i31 k, a boxed variant k is an instance of <T>$_Sub<k> whose tag slot is
+        2k+1, an unboxed variant is an instance of its payload type; a struct value is an instance of the struct"""
+        t = self.types.get(sym.ty) if isinstance(sym.ty, str) else None
+        if t is None:
+            return
+        if t.get("kind") == "struct":
+            self.axioms.append(self.fact("isptr!%s!%s" % (sym.key, sym.ty)))
+            return
+        if t.get("kind") != "enum" or not t.get("variants"):
+            return
+        alts = []
+        for k, var in enumerate(t["variants"]):
+            if var["k"] == "int31":
+                payload = z3.SignExt(1, z3.Extract(30, 0, z3.BitVec(sym.key + "#i31val", 32)))
+                alts.append(z3.And(self.fact("isi31!%s" % sym.key), payload == BV(k)))
+            elif var["k"] == "boxed":
+                tag = self.field(sym, 0, "int", "#tag")
+                alts.append(z3.And(self.fact("isptr!%s!%s$_Sub%d" % (sym.key, sym.ty, k)), tag.t == BV(2 * k + 1)))
+            else:
+                alts.append(self.fact("isptr!%s!%s" % (sym.key, var["t"])))
+        self.axioms.append(z3.Or(*alts))
 
     def fact(self, key):
         if key not in self.bools:
@@ -192,6 +255,8 @@ class World:
                     else:
                         self.axioms.append(z3.Not(z3.And(b, b2)))
             facts[ty] = b
+            for other, eq in self.refeqs.get(obj, ()):
+                self.axioms.append(z3.Implies(eq, b == self.fact("isptr!%s!%s" % (other, ty))))
         elif key.startswith("isi31!"):
             obj = key.split("!", 1)[1]
             facts = self.typefacts.setdefault(obj, {})
@@ -199,6 +264,8 @@ class World:
                 if t2 != "#i31":
                     self.axioms.append(z3.Not(z3.And(b, b2)))
             facts["#i31"] = b
+            for other, eq in self.refeqs.get(obj, ()):
+                self.axioms.append(z3.Implies(eq, b == self.fact("isi31!%s" % other)))
 
 
 def vkey(v):
@@ -216,7 +283,7 @@ def vkey(v):
 
 
 class State:
-    __slots__ = ("env", "pc", "trace", "stack", "frames", "steps", "forks", "late", "model")
+    __slots__ = ("env", "pc", "trace", "stack", "frames", "steps", "forks", "late", "model", "entered")
 
     def copy(self):
         s = State()
@@ -229,6 +296,7 @@ class State:
         s.forks = self.forks
         s.late = self.late
         s.model = self.model
+        s.entered = self.entered
         return s
 
 
@@ -343,6 +411,8 @@ class Exec:
             return z3.BoolVal(False)
         if isinstance(a, Poison) or isinstance(b, Poison):
             return z3.Bool("poison!%s!eq" % self.role)
+        if isinstance(a, Sym) and isinstance(b, Sym):
+            return self.w.refeq(a.key, b.key)
         ka, kb = sorted([vkey(a), vkey(b)])
         return self.w.fact("refeq!%s!%s" % (ka, kb))
 
@@ -367,6 +437,7 @@ class Exec:
         st.forks = 0
         st.late = None
         st.model = model0
+        st.entered = frozenset()
         for n, a in zip(f["params"], args):
             st.env[n] = a
         st.stack = [("ret", f["retval"], None, None, 0), ("seq", f["body"], 0)]
@@ -389,7 +460,9 @@ class Exec:
         return self.paths
 
     def finish(self, st, outcome, value=None, why=None):
-        self.paths.append(Path(st.pc, st.trace, outcome, value, why, st.model))
+        p = Path(st.pc, st.trace, outcome, value, why, st.model)
+        p.entered = st.entered
+        self.paths.append(p)
 
     def branch(self, st, cond, work, then_fn, else_fn):
         """cond: z3 Bool.  Calls then_fn(state)/else_fn(state) on the feasible sides (forking when both are)."""
@@ -798,6 +871,7 @@ class Exec:
                 raise Budget("call depth")
             callee = self.p.fns[target]
             saved = st.env
+            st.entered = st.entered | {target}
             st.frames.append(target)
             st.env = {}
             for pn, a in zip(callee["params"], args):
